@@ -275,6 +275,12 @@ fn check(c: &Case, obs: &mut Obs) -> Verdict {
         let text = encode_spec(f);
         text.split([',', ';']).any(|s| !s.is_empty() && rv::read(s).map(|v| v.len() < 3).unwrap_or(false))
     });
+    obs.class_if(good.iter().any(|f| f.entries.len() > 256), "function-map>256-entries");
+    obs.class_if(
+        c.meta.len() >= 2
+            && matches!((&c.meta[0], &c.meta[1]), (Meta::Maps(a, _), Meta::Maps(b, _)) if a.names != b.names && encode_spec(a) == encode_spec(b) && encode_spec(a).len() >= 64),
+        "two-sources-with-identical-mappings>=64-bytes-and-different-names",
+    );
     obs.class_if(broken > 0, "unparsable-function-map(for one source)");
     obs.class_if(broken > 0 && !good.is_empty(), "unparsable-next-to-well-formed");
     obs.class_if(out_of_range, "name-index-out-of-range");
@@ -299,13 +305,18 @@ fn spec(allow_faults: bool) -> BoxedStrategy<FnMapSpec> {
             let entries = if n == 0 {
                 Just(vec![]).boxed()
             } else {
-                vec((1u32..7, 0u32..30, 0..n), 0..9)
-                    .prop_map(|mut v| {
-                        v.sort();
-                        v.dedup_by_key(|e| (e.0, e.1));
-                        v
-                    })
-                    .boxed()
+                prop_oneof![
+                    12 => vec((1u32..7, 0u32..30, 0..n), 0..9),
+                    // large function maps (hundreds of entries, around the powers of two)
+                    1 => proptest::sample::select(vec![60usize, 127, 128, 129, 255, 256, 257, 258, 300, 513])
+                        .prop_flat_map(move |k| vec((1u32..40, 0u32..30, 0..n), k..k + 40)),
+                ]
+                .prop_map(|mut v| {
+                    v.sort();
+                    v.dedup_by_key(|e| (e.0, e.1));
+                    v
+                })
+                .boxed()
             };
             let fault = if allow_faults {
                 prop_oneof![
@@ -318,7 +329,7 @@ fn spec(allow_faults: bool) -> BoxedStrategy<FnMapSpec> {
             } else {
                 Just(None).boxed()
             };
-            (Just(names), entries, vec(any::<bool>(), 9), vec(any::<bool>(), 9), fault)
+            (Just(names), entries, vec(any::<bool>(), 64), vec(any::<bool>(), 64), fault)
         })
         .prop_map(|(names, entries, semis, omit, fault)| FnMapSpec { names, entries, semis, omit, fault })
         .boxed()
@@ -354,7 +365,28 @@ fn cases(t: Tier) -> BoxedStrategy<Case> {
             ];
             (Just(map), vec(meta, ns.saturating_sub(1)..=ns + 1), vec(prop_oneof![3 => 0u32..40, 1 => small_or_edge()], 0..5))
         })
-        .prop_map(|(map, meta, offsets)| Case { map, meta, offsets })
+        .prop_map(|(mut map, mut meta, offsets)| {
+            // a quarter of the cases: the second source gets a byte-identical function-map string
+            // with its own (different) names
+            if offsets.len() % 4 == 1 && meta.len() >= 2 {
+                if let Meta::Maps(first, _) = meta[0].clone() {
+                    let mut twin = first;
+                    twin.names = twin.names.iter().map(|n| format!("{n}_b")).collect();
+                    meta[1] = Meta::Maps(twin, vec![]);
+                }
+            }
+            // sources with a large function map get tokens over its whole line range
+            for t in &mut map.tokens {
+                if let Some(s) = &mut t.src {
+                    if let Some(Meta::Maps(f, _)) = meta.get(s.id as usize) {
+                        if f.entries.len() > 40 {
+                            s.line = (s.line * 7 + t.dc) % 42;
+                        }
+                    }
+                }
+            }
+            Case { map, meta, offsets }
+        })
         .boxed()
 }
 
